@@ -375,7 +375,7 @@ func containsDocPiece(body, D []byte) bool {
 	if len(D) < 12 || len(body) < 12 {
 		return false
 	}
-	for _, off := range []int{0, len(D) / 2, len(D) - 12} {
+	for _, off := range []int{0, (len(D) - 12) / 2, len(D) - 12} {
 		if bytes.Contains(body, D[off:off+12]) {
 			return true
 		}
